@@ -105,7 +105,7 @@ EXTRA = {
  "C06": "Added: C06_request_view / C06_wrong_root_refused / C06_trailing_content_refused (decode = InflateAndDecode + Unmarshal model + projection; checked against the real decoder on every SSO case), C06_encoding / C06_unknown_encoding_refused (decode oracle opened to InflateAndDecode + parser, form read off the source by C06_decode_from_source), C06_schema.",
  "C08": "Added: C08_single_write, C08_terminal, C08_prechecks (delivery, terminal switch and pre-chain checks derived from the statement facts of sendBackResponse / ssoHandleFunc).",
  "C10": "Added: C10_response_key / C10_metadata_key / C10_key_guards_order (which answers of the key getters are accepted, from the guard statements of getResponseCert / getMetadataCert); the correspondence derives cert_ok / mkey_ok from the injected answer shape.",
- "C11": "Added: C11_schema (metadata struct tags vs the SAML metadata schema).",
+ "C11": "Added: C11_metadata_document (the metadata document from the translated builders of metadata.go / identityprovider.go: entityID, flag, key descriptors, locations, for every configuration); every metadata document of the configuration sweep is rebuilt from source + schema and compared with the served one (KMetaDoc); C11_unsigned_accepted_otherwise (the converse of the flag clause); C11_schema (metadata struct tags vs the SAML metadata schema).",
  "C12": "Added: the decode oracle as a function of the request body (aquery_of_doc: model of Unmarshal + projection), checked against DecodeAttributeQuery on every case; C12_built_response (the answer document's fields from the builder source), C12_schema.",
  "C13": "Added: the decode oracle as a function of the request document (lreq_of_doc), checked against DecodeLogoutRequest on every case; C13_built_response, C13_delivery_from_source, C13_codec, C13_schema.",
  "C14": "Added: C14_oversized_not_accepted / C14_oversized_decode_fails (an oversized DEFLATE payload is never accepted by the SSO handler, with decode = InflateAndDecode + parser).",
